@@ -371,14 +371,16 @@ def tasks(tier):
             ts.append(task(PROP, M_, "HardOcdLossH", R=2, H=2, N=2 if red != "none" else 1, V=3, eos=0, include_eos=True, batch_first=bf, reduction=red,
                            costs=[1.0, 1.0, 1.0], weight=w))
     else:
-        for R, H in itertools.product(range(1, 5), range(1, 5)):
+        for R, H in itertools.product(range(1, 4), range(1, 4)):
             V = min(5, R + 2)
             for eos, ie, bf, xl in itertools.product([0, None], [False, True], [False, True], [False, True]):
                 if eos is None and ie:
                     continue
-                N = 2 if R * H <= 9 else 1
+                N = 2 if R * H <= 6 else 1
                 ts.append(task(PROP, M_, "OptimalCompletionH", R=R, H=H, N=N, V=V, eos=eos, include_eos=ie, batch_first=bf, exclude_last=xl,
-                               costs=uneq if (R + H) % 2 else [1.0, 1.0, 1.0]))
+                               costs=uneq if (R + H) % 2 else [1.0, 1.0, 1.0], time_limit=1500))
+        for (R, H), (eos, ie, xl) in itertools.product(((4, 3), (3, 4), (4, 4)), ((0, True, False), (0, False, True), (None, False, False))):
+            ts.append(task(PROP, M_, "OptimalCompletionH", R=R, H=H, N=1, V=4, eos=eos, include_eos=ie, batch_first=False, exclude_last=xl, costs=uneq, time_limit=1500))
         for ie in (False, True):
             ts.append(task(PROP, M_, "OptimalCompletionH", R=3, H=3, N=1, V=4, eos=0, include_eos=ie, batch_first=False, exclude_last=False, costs="sym", cmax=16))
             ts.append(task(PROP, M_, "OptimalCompletionH", R=3, H=3, N=2, V=4, eos=0, include_eos=ie, batch_first=False, exclude_last=True, costs=uneq, as_module=True))
